@@ -22,6 +22,14 @@ TINY = 2.0 ** -34
 UNIT = [1.0]      # length unit of the scenario being judged (absolute allowances scale with it)
 
 
+def _have_mpl():
+    try:
+        import matplotlib  # noqa: F401
+        return True
+    except Exception:  # noqa: BLE001
+        return False
+
+
 def queries(obj):
     """name -> callable(obj, argstore) ; argstore collects argument arrays to be checked afterwards"""
     import coxeter
@@ -45,6 +53,24 @@ def queries(obj):
         return run
 
     q["is_inside"] = with_arg(lambda o, p: o.is_inside(p), pts)
+    # drawing is a query too (non-default arguments included): matplotlib with the off-screen backend
+    if cls in ("Polygon", "ConvexPolygon", "Polyhedron", "ConvexPolyhedron") and _have_mpl():
+        def plotter(o, a, kw):
+            import matplotlib
+            matplotlib.use("Agg")
+            import matplotlib.pyplot as plt
+            fig = plt.figure()
+            try:
+                ax = fig.add_subplot(111, projection="3d") if hasattr(o, "faces") else fig.add_subplot(111)
+                o.plot(ax=ax, **kw)
+            finally:
+                plt.close(fig)
+            return None
+        if cls in ("Polygon", "ConvexPolygon"):
+            q["plot(center=True,plot_verts,label_verts)"] = lambda o, a: plotter(o, a, dict(center=True, plot_verts=True, label_verts=True))
+            q["plot()"] = lambda o, a: plotter(o, a, {})
+        else:
+            q["plot(plot_verts,label_verts)"] = lambda o, a: plotter(o, a, dict(plot_verts=True, label_verts=True))
     q["repr"] = lambda o, a: repr(o)
     q["to_json"] = lambda o, a: o.to_json(["gsd_shape_spec"])
     if hasattr(obj, "to_hoomd"):
